@@ -442,6 +442,25 @@ impl BlobStore for Lossy {
 
 fn coord(c: u8) -> SemanticBlobCoordinate {
     let roles = [RetainedBlobRole::ContractArtifact, RetainedBlobRole::ContractReceipt, RetainedBlobRole::Witness, RetainedBlobRole::ReadingPayload, RetainedBlobRole::ReadingEnvelope, RetainedBlobRole::ObserverArtifact];
+    if c & 1 == 1 {
+        // boundary-shift family: one string split into (namespace, schema, artifact) at two
+        // generated positions. Different splits are different coordinates although their
+        // fields concatenate to the same text (a key that forgets the field boundaries
+        // aliases them); role and digest are equal within a family.
+        let k = (c >> 1) as usize;
+        let base = ["0a0a0a", "aaaa", "ns/a00"][k % 3];
+        let n = base.len();
+        let splits: Vec<(usize, usize)> = (0..=n).flat_map(|i| (i..=n).map(move |j| (i, j))).collect();
+        let (i, j) = splits[(k / 3) % splits.len()];
+        return SemanticBlobCoordinate {
+            namespace: base[..i].into(),
+            schema_hash_hex: base[i..j].into(),
+            artifact_hash_hex: base[j..].into(),
+            role: RetainedBlobRole::ContractArtifact,
+            semantic_digest: [0; 32],
+        };
+    }
+    let c = c >> 1;
     // coordinates differ in exactly one field from a neighbour
     SemanticBlobCoordinate {
         namespace: if c & 1 == 0 { "ns/a".into() } else { "ns/b".into() },
@@ -459,11 +478,16 @@ pub enum ROp {
     LoadRange(u8, u16, u16, u16),
     Lose(u8),
 }
+/// Coordinate indexes: any, or biased to a handful so that operations meet on the same and
+/// on neighbouring coordinates.
+fn coord_ix() -> impl Strategy<Value = u8> {
+    prop_oneof![2 => any::<u8>(), 3 => 0u8..24, 2 => (0u8..40).prop_map(|k| k * 2 + 1)]
+}
 fn rop() -> impl Strategy<Value = ROp> {
     prop_oneof![
-        4 => (any::<u8>(), any::<u8>()).prop_map(|(c, b)| ROp::Retain(c, b)),
-        3 => any::<u8>().prop_map(ROp::Load),
-        3 => (any::<u8>(), 0u16..80, 0u16..80, 0u16..100).prop_map(|(c, o, l, m)| ROp::LoadRange(c, o, l, m)),
+        4 => (coord_ix(), any::<u8>()).prop_map(|(c, b)| ROp::Retain(c, b)),
+        3 => coord_ix().prop_map(ROp::Load),
+        3 => (coord_ix(), 0u16..80, 0u16..80, 0u16..100).prop_map(|(c, o, l, m)| ROp::LoadRange(c, o, l, m)),
         1 => any::<u8>().prop_map(ROp::Lose),
     ]
 }
